@@ -150,6 +150,9 @@ func callVsym(fr *frame, fn *ssa.Function, args []value) value {
 	case "VsAssume":
 		c.Assume(args[0])
 		return nil
+	case "VsLemma": // (label string, cond bool): a fact proved by another harness of the same check
+		c.Lemma(argStr(args[0]), args[1], callerSite(fr))
+		return nil
 	case "VsAssert": // (label string, cond bool)
 		c.Assert(argStr(args[0]), args[1], callerSite(fr))
 		return nil
@@ -222,6 +225,16 @@ func callVsym(fr *frame, fn *ssa.Function, args []value) value {
 		return mkSymInt(sym.ModFloor(termOf(args[0]), termOf(args[1])), types.Int)
 	case "VsDecimal": // (x int, width int) string: decimal rendering of x >= 0 with exactly width digits (zero padded)
 		w := int(argInt(args[1]))
+		if sx, ok := args[0].(*Sym); ok {
+			limit := new(big.Int).Exp(big.NewInt(10), big.NewInt(int64(w)), nil)
+			if sx.T.Hi == nil || sx.T.Hi.Cmp(limit) >= 0 || !sx.T.NonNeg() {
+				// may need more than w digits (fmt's %0*d then prints the natural length): keep the
+				// digit count undecided; consumers that cannot work lazily fork on it
+				return lazyDec{segs: []lazySeg{{num: sx.T, width: w}}}
+			}
+		} else {
+			return fmt.Sprintf("%0*d", w, asInt64(args[0]))
+		}
 		return decimalDigits(args[0], w)
 	case "VsObserve": // (x interface{})
 		ov := args[0]
